@@ -58,13 +58,13 @@ ROLE = {
 }
 
 
-def make_param(interp: Interp, name: str, spec: P, dtype: str | None = None) -> SVar:
+def make_param(interp: Interp, name: str, spec: P, dtype: str | None = None, suffix: str = '') -> SVar:
     if spec.kind == 'scalar':
-        term = Rat.sym(name, positive=spec.positive)
+        term = Rat.sym(name + suffix, positive=spec.positive)
     elif spec.kind == 'vector':
-        term = Vec.sym(name)
+        term = Vec.sym(name + suffix)
     else:
-        term = Mat.sym(name)
+        term = Mat.sym(name + suffix)
     unit = spec.unit if spec.unit is not None else Unit.param(name)
     v = SVar(term, unit, dtype or spec.dtype, origin=name, taint=spec.taint)
     interp.param_dims[name] = spec.dim
@@ -90,6 +90,42 @@ def run_kernel(repo: Repo, fi: FuncInfo, specs: dict[str, P], dtypes: dict[str, 
             kwargs[name] = make_param(it, name, spec, (dtypes or {}).get(name))
         kwargs.update(extra_args or {})
         return it.call_function(fi, [], kwargs, bound=bound(it) if callable(bound) else bound)
+
+    outs = interp.run_all(go)
+    for o in outs:
+        o.interp = interp  # type: ignore[attr-defined]
+    return outs
+
+
+EARLIER_CALL_RAISED = object()
+
+
+def run_history(repo: Repo, calls, binned: bool = False, keep_table: bool = False) -> list[Outcome]:
+    """Interpret a history: the calls (fi, specs, dtypes, suffix) one after the other in ONE world (module-level tables, memo
+    stores and rebinding of globals made by an earlier call are there for the later ones).  One Outcome per path, for the LAST
+    call; paths on which an earlier call raises return EARLIER_CALL_RAISED.  The symbols of each call carry its suffix, so that a
+    value kept from an earlier call is visible in a later result."""
+    from .interp import RaiseSignal
+    if not keep_table:
+        T.reset()
+        SVar._next = 0
+    model = Model()
+    model.binned_mode = binned
+    interp = Interp(repo, model)
+
+    def go(it: Interp):
+        it.objects.clear()
+        it.param_dims.clear()
+        last = None
+        for k, (fi, specs, dtypes, suffix) in enumerate(calls):
+            kwargs = {name: make_param(it, name, spec, (dtypes or {}).get(name), suffix=suffix) for name, spec in specs.items()}
+            try:
+                last = it.call_function(fi, [], kwargs)
+            except RaiseSignal:
+                if k < len(calls) - 1:
+                    return EARLIER_CALL_RAISED
+                raise
+        return last
 
     outs = interp.run_all(go)
     for o in outs:
